@@ -1644,6 +1644,11 @@ impl DistributedTxCoordinator {
                     .release_by_handle_with_wait_cleanup(*lock_handle, &self.wait_graph);
             }
         }
+        // Release anything the transaction still holds under a handle that never reached
+        // the votes (duplicated prepare, lost vote) and drop it from the wait-for graph
+        // even if it never held a lock.
+        self.lock_manager.release(tx_id);
+        self.wait_graph.remove_transaction(tx_id);
 
         // Mark all locks released
         let _ = self.log_wal_entry(&TxWalEntry::AllLocksReleased { tx_id });
@@ -1776,6 +1781,11 @@ impl DistributedTxCoordinator {
                     .release_by_handle_with_wait_cleanup(*lock_handle, &self.wait_graph);
             }
         }
+        // Release anything the transaction still holds under a handle that never reached
+        // the votes, and drop it from the wait-for graph even if it never held a lock
+        // (a refused prepare records a wait edge but no handle).
+        self.lock_manager.release(tx_id);
+        self.wait_graph.remove_transaction(tx_id);
 
         tx.phase = TxPhase::Aborted;
         self.stats.aborted.fetch_add(1, Ordering::Relaxed);
@@ -1827,6 +1837,9 @@ impl DistributedTxCoordinator {
                             .release_by_handle_with_wait_cleanup(*lock_handle, &self.wait_graph);
                     }
                 }
+                // Same as commit/abort: nothing of the transaction may stay behind.
+                self.lock_manager.release(*tx_id);
+                self.wait_graph.remove_transaction(*tx_id);
                 self.stats.timed_out.fetch_add(1, Ordering::Relaxed);
             }
         }
